@@ -38,3 +38,13 @@ prop("C10",
          H("txfile.VerifRegionRoundTrip", "decodeRegion(encodeRegion(r)) == r, encoded length == regionEncodingSize(r)",
            "id<2^55, count in [1,2^32), meta flag, 12 junk bytes"),
      ])
+
+# ------------------------------------------------------------------ C03
+prop("C03",
+     bounds="fresh bounded file (64 pages of 1 KiB), 2 committed pages, then <= 2 transactions of <= 2-3 symbolic operations "
+            "(alloc, allocN, overwrite, partial SetBytes, Load+MarkDirty, Free, Tx.Flush, Page.Flush, CheckpointWAL, SetRoot), symbolic endings, symbolic content bytes",
+     outside="longer transactions / histories, other page sizes, background-writer batchings other than 'writer runs when the transaction blocks' (separate writer lemma)",
+     harnesses=[
+         H("txfile.VerifProgStore", "from-init symbolic program against a reference model: read-your-writes, committed view, reopen",
+           "ntx=1,nops=2 (quick)", quick={"params": {"ntx": 1, "nops": 2}}, thorough={"params": {"ntx": 2, "nops": 2, "nops2": 1}, "max_paths": 200000, "budget": "1500s"}),
+     ])
